@@ -161,24 +161,14 @@ func (vt *Model) ich(ps int) {
 	col := vt.cursor.col
 	row := vt.cursor.row
 	line := vt.activeScreen[row]
-	for i := vt.margin.right; i > col; i -= 1 {
-		if (i - column(ps)) < 0 {
-			continue
-		}
+	// shift the cells from the cursor to the right, dropping what is
+	// pushed beyond the right margin
+	for i := vt.margin.right; i >= col+column(ps); i -= 1 {
 		line[i] = line[i-column(ps)]
 	}
-	for i := 0; i < ps; i += 1 {
-		if int(col)+i >= (vt.width() - 1) {
-			break
-		}
-		line[col+column(i)] = cell{
-			Cell: vaxis.Cell{
-				Character: vaxis.Character{
-					Grapheme: " ",
-					Width:    1,
-				},
-			},
-		}
+	// the gap is blank, in the current background
+	for i := column(0); i < column(ps) && col+i <= vt.margin.right; i += 1 {
+		line[col+i].erase(vt.cursor.Style.Background)
 	}
 }
 
